@@ -7,6 +7,17 @@ _PENDING = ["C01", "C02", "C03", "C04", "C05", "C06", "C07", "C08", "C09", "C10"
 RELAY_NOTE = "Trusted: Coq kernel; the Go harness (event abstraction: the harness records the credential descriptor, attribute presence/size and relay port it used), pion/stun encoding and MESSAGE-INTEGRITY, Go timers under testing/synctest. One listener/one allocation manager is modelled; TCP relay connections are C16's model."
 
 CHECKS = [
+    {"property_id": "C13",
+     "text": "Coq theorems on Model/ClientConn.v: per WriteTo, data goes out only with a permission (old, or from this call's successful "
+             "CreatePermission), with the exact payload, never after Close, ChannelData only on a usable binding of exactly that peer; over "
+             "every history ChannelData toward p is preceded by a ChannelBind success for p; numbers in 0x4000-0x7FFF, distinct for up to "
+             "16384 peers; ReadFrom FIFO with the right peer, unknown channel is an error, deadlines and Close, inbound never blocks and the "
+             "queue is bounded. The model is run against the real UDPConn over a scripted TURN client: call sequences x server reactions "
+             "(success, 400, 403, 438, transaction failure), inbound bursts, unknown channels, binding check timer, many peers, and the "
+             "ConnectionAttempt queue of the TCP allocation.",
+     "note": "Trusted: Coq kernel, Go harness (scripted Client; client.go's two inbound call sites replicated; C09 covers client.go dispatch). "
+             "maybeBind's background goroutine is abstracted to a later event. A third 438 in a row to one ChannelBind is not modelled.",
+     "technique": "Coq proof (step characterisation + history invariants) + differential correspondence against internal/client/udp_conn.go under virtual time"},
     {"property_id": "C16",
      "text": "Coq theorems on Model/TcpRelay.v: a Connect success / ConnectionAttempt announces an id no connection has, for a really dialled / "
              "accepted peer connection (inbound only with a permission); ConnectionBind succeeds only for an existing unbound connection of the "
